@@ -1305,13 +1305,19 @@ EB_API EbErrorType svt_av1_enc_init(EbComponentType *svt_enc_component)
     enc_dec_ports[ENCDEC_INPUT_PORT_ENCDEC].count = enc_handle_ptr->scs_instance_array[0]->scs_ptr->enc_dec_process_init_count;
 
     for (instance_index = 0; instance_index < enc_handle_ptr->encode_instance_total_count; ++instance_index) {
-        create_ref_buf_descs(enc_handle_ptr, instance_index);
+        return_error = (EbErrorType)create_ref_buf_descs(enc_handle_ptr, instance_index);
+        if (return_error != EB_ErrorNone)
+            return return_error;
         if (enc_handle_ptr->scs_instance_array[instance_index]->scs_ptr->in_loop_me) {
-            create_down_scaled_buf_descs(enc_handle_ptr, instance_index);
-            create_pa_ref_buf_descs(enc_handle_ptr, instance_index, 1); // create dummy pa surfaces
+            return_error = (EbErrorType)create_down_scaled_buf_descs(enc_handle_ptr, instance_index);
+            if (return_error != EB_ErrorNone)
+                return return_error;
+            return_error = (EbErrorType)create_pa_ref_buf_descs(enc_handle_ptr, instance_index, 1); // create dummy pa surfaces
         } else {
-            create_pa_ref_buf_descs(enc_handle_ptr, instance_index, 0);
+            return_error = (EbErrorType)create_pa_ref_buf_descs(enc_handle_ptr, instance_index, 0);
         }
+        if (return_error != EB_ErrorNone)
+            return return_error;
         if (enc_handle_ptr->scs_instance_array[0]->scs_ptr->static_config.enable_overlays) {
             // Overlay Input Picture Buffers
             EB_NEW(
